@@ -153,6 +153,8 @@ class LRRP(MBXMLDocument):
             MBXMLDocumentIdentifier.LRRP_LocationProtocolReport_NCDT,
             MBXMLDocumentIdentifier.LRRP_TriggeredLocationStopAnswer,
             MBXMLDocumentIdentifier.LRRP_TriggeredLocationStopAnswer_NCDT,
+            MBXMLDocumentIdentifier.LRRP_TriggeredLocationAnswer,
+            MBXMLDocumentIdentifier.LRRP_TriggeredLocationAnswer_NCDT,
         ):
             element_tokens = {
                 **element_tokens,
